@@ -30,6 +30,10 @@ fn main() {
         }
         std::process::exit(0);
     }
+    if cfg!(miri) || s.args.scale < 0.05 {
+        util::SHRINK_BUDGET.store(30, std::sync::atomic::Ordering::Relaxed);
+        gen::SMALL.store(true, std::sync::atomic::Ordering::Relaxed);
+    }
     match s.prop() {
         "C09" => c09::run(&mut s),
         "C15" => c15::run(&mut s),
